@@ -93,10 +93,11 @@ func refElem(e *XElem, c Cfg) interface{} {
 		if c.Snake {
 			local = strings.ReplaceAll(local, "-", "_")
 		}
-		key := c.AttrPrefix + local
+		// CoerceKeysToLower is documented as folding the token's Name.Local: the prefix is not part of it
 		if c.Lower {
-			key = strings.ToLower(key)
+			local = strings.ToLower(local)
 		}
+		key := c.AttrPrefix + local
 		v := a.Value
 		if c.EscDec {
 			v = refEsc(v)
